@@ -74,6 +74,10 @@ func ValidateInputDataDimUnity(data any) (err error) {
 			if len(sub) != dim {
 				return dimUnityErr
 			}
+
+			if len(sub[0]) != len(v[0][0]) {
+				return dimUnityErr
+			}
 		}
 
 	case [][][][]float64:
@@ -89,6 +93,10 @@ func ValidateInputDataDimUnity(data any) (err error) {
 			}
 
 			if len(sub) != dim {
+				return dimUnityErr
+			}
+
+			if len(sub[0]) != len(v[0][0]) || len(sub[0][0]) != len(v[0][0][0]) {
 				return dimUnityErr
 			}
 		}
